@@ -1658,6 +1658,9 @@ mod v_iface_sixlowpan {
         kani::cover!(r802.src_addr.is_some() && r802.dst_addr.is_some(), "addresses present");
     }
 
+    // (tried and removed: a FRAGN arriving first with a symbolic datagram size (and a symbolic or concrete offset) did not
+    // finish in 15 minutes; lowpan_frag_rx_any_addressing keeps size 64 / offset 6 concrete with symbolic tag and addressing.)
+
     // @harness props=C20 cfg=KL kind=mustfail tier=q to=600 mem=4 unwind=20 opts=nomem
     #[kani::proof]
     pub(crate) fn lowpan_must_fail() {
